@@ -27,8 +27,12 @@ def run_case(run, drv, case_seed, tier):
         dest = os.path.join(box, "dest")
         os.makedirs(dest)
         how = rng.choice(["list", "dir"])
-        count = impl.rebuild([os.path.join(box, "metas")] if how == "dir" else [m for m, _ in metas],
-                             sdirs, dest)
+        if how == "dir":
+            count = impl.rebuild([os.path.join(box, "metas")], sdirs, dest)
+        else:
+            count, raised = rb.rebuild_with_model(box, [m for m, _ in metas], sdirs, dest, drv, case)
+            if raised:
+                run.fail("impl-vs-spec", case, {"raised": raised})
         judge(run, case, torrents, metas, dest, count)
         map_pieces_model(drv, case, torrents, metas)
     kinds = sorted({k for k, _ in placed})
@@ -147,7 +151,7 @@ def run(tier, seed, replay=None):
         seeds = [] if replay else [run.rng.randrange(10 ** 9) for _ in range(70 if tier == "quick" else 700)]
     for s in seeds:
         guarded(run, {"case_seed": s}, run_case, run, drv, s, tier)
-    for (case, got), req, out in drv.run():
+    for (case, got), req, out in rb.settle_match(run, drv.run()):
         if out.startswith("ERR"):
             if os.environ.get("VERIF_DEV") and "bad-op" in out:
                 continue
